@@ -2,6 +2,7 @@ import Femio.Lemmas.UcdProps
 import Femio.Lemmas.UcdAlign
 import Femio.Lemmas.UcdTextProps
 import Femio.Model.UcdHist
+import Femio.Model.UcdAlignInt
 import Femio.Gen.Tables
 
 /-! C04 — AVS UCD write → read is exact for mesh, nodal and elemental data.
@@ -489,5 +490,61 @@ theorem C04_stale_frame_counterexample :
       = some (exBefore.nodes, [(7, ["20.5".toList]), (3, ["21.5".toList])]) ∧
     exBefore.nodes ≠ (runSteps HCfg.staleFrame exStart exHistory).obj.pub.nodes := by
   decide +kernel
+
+/-! ### ids of any sign: `_align_data` binds rows to ids as KEYS (seeded change C04-9) -/
+
+/-- The dict of `_align_data` finds, for the `k`-th own id of a variable, the row `k` — for ids of ANY type with decidable
+    equality (integers of any sign and size in particular), provided no id is repeated. -/
+theorem C04_align_by_key {I : Type} [DecidableEq I] (ids : List I) (hnd : ids.Nodup) (k : Nat) (hk : k < ids.length) :
+    keyPos ids ids[k] = some k := by
+  induction ids generalizing k with
+  | nil => simp at hk
+  | cons a t ih =>
+    have hnd' := List.nodup_cons.mp hnd
+    cases k with
+    | zero => simp [keyPos]
+    | succ k =>
+      have hk' : k < t.length := by simpa using hk
+      have hne : t[k] ≠ a := by
+        intro h
+        exact hnd'.1 (h ▸ List.getElem_mem hk')
+      simp [keyPos, hne, ih hnd'.2 k hk']
+
+example : keyPos [3, -1, 0, 6, 2, 5, 1, (4 : Int)] (-1) = some 1 := by decide
+
+theorem keyPos_spec {I : Type} [DecidableEq I] (ids : List I) (i : I) (h : i ∈ ids) :
+    ∃ k, ∃ hk : k < ids.length, keyPos ids i = some k ∧ ids[k] = i := by
+  induction ids with
+  | nil => simp at h
+  | cons a t ih =>
+    by_cases hia : i = a
+    · exact ⟨0, by simp, by simp [keyPos, hia], by simp [hia]⟩
+    · have ht : i ∈ t := by
+        rcases List.mem_cons.mp h with h | h
+        · exact absurd h hia
+        · exact h
+      obtain ⟨k, hk, h1, h2⟩ := ih ht
+      exact ⟨k + 1, by simpa using hk, by simp [keyPos, hia, h1], by simpa using h2⟩
+
+/-- The writer of the tree (`ACfg.dict`) emits next to every mesh id — negative, zero or positive — a row that the variable
+    holds under exactly that id, whatever the two id orders are. -/
+theorem C04_align_any_sign (ownIds meshIds : List Int) (hp : meshIds.Perm ownIds) :
+    alignPositions ACfg.dict ownIds meshIds = meshIds.map (keyPos ownIds) ∧
+    ∀ i ∈ meshIds, ∃ k, ∃ hk : k < ownIds.length, keyPos ownIds i = some k ∧ ownIds[k] = i :=
+  ⟨rfl, fun i hi => keyPos_spec ownIds i (hp.subset hi)⟩
+
+example : alignPositions ACfg.dict [-1, 0, 1, 2, 3, 4, 5, 6] [3, -1, 0, 6, 2, 5, 1, 4]
+    = [some 4, some 0, some 1, some 7, some 3, some 6, some 2, some 5] := by decide
+
+/-- Seeded change C04-9 (ids used as array positions of a dense table, numpy wrap-around of negative indices): with node
+    ids -1 .. 6 the ids -1 and 6 share a slot, and the row of id 6 is written next to the id -1; with non-negative ids
+    the same table is right, which is why no input with positive ids can see the change. -/
+theorem C04_dense_table_counterexample :
+    alignPositions ACfg.denseTable [-1, 0, 1, 2, 3, 4, 5, 6] [3, -1, 0, 6, 2, 5, 1, 4]
+      = [some 4, some 7, some 1, some 7, some 3, some 6, some 2, some 5] ∧
+    alignPositions ACfg.denseTable [-1, 0, 1, 2, 3, 4, 5, 6] [3, -1, 0, 6, 2, 5, 1, 4]
+      ≠ alignPositions ACfg.dict [-1, 0, 1, 2, 3, 4, 5, 6] [3, -1, 0, 6, 2, 5, 1, 4] ∧
+    alignPositions ACfg.denseTable [7, 0, 1, 2, 3, 4, 5, 6] [3, 7, 0, 6, 2, 5, 1, 4]
+      = alignPositions ACfg.dict [7, 0, 1, 2, 3, 4, 5, 6] [3, 7, 0, 6, 2, 5, 1, 4] := by decide
 
 end Femio.C04
